@@ -27,6 +27,32 @@ def product_tensor(factors):
     return out
 
 
+def data_tensor_class(x, bl, cols=None):
+    """class of the transformed data tensor (restricted to the snapshot columns `cols`): 'zero' if it vanishes identically (data on
+    common zeros of the basis functions - every relative cut inside the library is 0/0 on it, the inadmissible class of DESIGN
+    section 7), 'gapless' if an unfolding has singular values of relative size 1e-15..1e-10 (rank decisions not determined by
+    the data), else 'regular'"""
+    x = np.asarray(x)
+    if cols is not None:
+        x = x[:, np.asarray(cols, dtype=int)]
+    m = x.shape[1]
+    with probe.oracle():
+        factors = [np.array([[float(f(x[:, j])) for j in range(m)] for f in fl]) for fl in bl]
+    n = [f.shape[0] for f in factors]
+    if int(np.prod(n)) * m > 2 ** 16:
+        return 'regular'
+    T = product_tensor(factors)
+    if not np.any(T):
+        return 'zero'
+    for k in range(1, len(n) + 1):
+        s = np.linalg.svd(T.reshape(int(np.prod(n[:k])), -1), compute_uv=False)
+        if s[0] <= 0:
+            return 'zero'
+        if np.any((s > 1e-15 * s[0]) & (s <= 1e-10 * s[0])):
+            return 'gapless'
+    return 'regular'
+
+
 def parse(names, defaults, args, kwargs):
     v = dict(defaults)
     for k, a in enumerate(args):
@@ -148,6 +174,26 @@ class Gram(probe.Contract):
         c.sig(self.api, [len(f) for f in bl], m1, m2)
 
 
+# ---- the cross approximation starts from a fixed, data-independent choice of columns ("multiplier" only enlarges it); if the block
+# of the tensor it lands on vanishes identically it cannot find a single independent column and gives up with an exception.  That
+# is the documented limitation of the heuristic, not a statement of C15.  The hook below records, per hocur call, whether an
+# exactly-zero block was what made the column search come back empty; only then is the exception taken as a refusal.
+HOCUR_STATE = {'zero_block': False}
+
+
+def hocur_gave_up_on_zero_block(e):
+    return isinstance(e, (ValueError, IndexError, np.linalg.LinAlgError)) and HOCUR_STATE['zero_block']
+
+
+def _li_cols_post(st, res, args, kwargs):
+    try:
+        m = np.asarray(args[0])
+        if len(res) == 0 and m.size > 0 and not np.any(m):
+            HOCUR_STATE['zero_block'] = True
+    except Exception:
+        pass
+
+
 class Hocur(probe.Contract):
     freeze = True  # the oracle sees the arguments as they were at call entry; arrays / lists rewritten by the call are reported
     input_prop = P
@@ -155,6 +201,7 @@ class Hocur(probe.Contract):
 
     def pre(self, args, kwargs):
         from .contracts_api import snapshot_plain
+        HOCUR_STATE['zero_block'] = False
         v = parse(['x', 'basis_list', 'ranks', 'repeats', 'multiplier', 'progress', 'string'], {'repeats': 1, 'multiplier': 10}, args, kwargs)
         return {'plain': snapshot_plain(args, kwargs), 'ranks': copy.deepcopy(v.get('ranks')), 'x': np.array(v['x'], copy=True)}
 
@@ -231,5 +278,6 @@ def install():
     probe.install(tr, 'function_major', FunctionMajor(), replace_everywhere=True)
     probe.install(tr, 'gram', Gram(), replace_everywhere=True)
     probe.install(tr, 'hocur', Hocur(), replace_everywhere=True)
+    probe.hook(tr, '__hocur_find_li_cols', 'transform.__hocur_find_li_cols', post=_li_cols_post)
     tr.__vt_c15__ = True
     return tr
